@@ -268,13 +268,18 @@ class XsdWildcard(XsdComponent):
 
     def union(self, other: Union['XsdAnyElement', 'XsdAnyAttribute']) -> None:
         """Update an XSD wildcard with the union of itself and another XSD wildcard."""
-        if not self.not_qname:
-            self.not_qname = copy(other.not_qname)
-        else:
-            self.not_qname = {
-                x for x in self.not_qname
-                if x in other.not_qname or not other.is_namespace_allowed(get_namespace(x))
-            }
+        # A name is disallowed by the union only if it's not admitted by both wildcards.
+        # The keywords (##defined, ##definedSibling) are kept only if they are in both.
+        not_qname = {
+            x for x in self.not_qname
+            if x in other.not_qname or
+            not x.startswith('##') and not other.is_namespace_allowed(get_namespace(x))
+        }
+        not_qname.update(
+            x for x in other.not_qname if not x.startswith('##') and
+            x not in self.not_qname and not self.is_namespace_allowed(get_namespace(x))
+        )
+        self.not_qname = not_qname
 
         if self.not_namespace:
             if other.not_namespace:
@@ -323,18 +328,22 @@ class XsdWildcard(XsdComponent):
             self.namespace.update(other.namespace)
             return
 
-        if w1.target_namespace in w2.namespace and '' in w2.namespace:
+        # The union of not(absent, target) with a set of namespaces
+        # is the negation of the excluded namespaces not in the set.
+        not_namespace = {'', w1.target_namespace} - w2.namespace
+        if not not_namespace:
             self.namespace.clear()
             self.namespace.add('##any')
-        elif '' not in w2.namespace and w1.target_namespace == w2.target_namespace:
+        elif len(not_namespace) == 2 and w1.target_namespace == self.target_namespace \
+                or not w1.target_namespace and not self.target_namespace:
             self.namespace.clear()
             self.namespace.add('##other')
-        elif self.xsd_version == '1.0':
+        elif self.xsd_version == '1.0' and '' not in not_namespace:
             msg = _("not expressible wildcard namespace union: {0!r} V {1!r}:")
             raise XMLSchemaValueError(msg.format(other.namespace, self.namespace))
         else:
             self.namespace.clear()
-            self.not_namespace = {'', w1.target_namespace}
+            self.not_namespace = not_namespace
 
     def intersection(self, other: Union['XsdAnyElement', 'XsdAnyAttribute']) -> None:
         """Update an XSD wildcard with the intersection of itself and another XSD wildcard."""
